@@ -10,7 +10,7 @@ META = {
     "explanation": "On the hand-written 1059 / 1065 / 1230 codecs: (K-adeq) every count and id written by the encoders has an interval within its "
                    "field (satellite count: distinct-bit counter bounded by the mask width and the explicit > 63 refusal; per-satellite count: refused above "
                    "31; ids from the inclusive range / signal table); (Q-mask) satellites accepted are exactly the ids the id field can hold, others "
-                   "are refused with OutOfRange, and groups are written for ascending s exactly when the satellite is present; (Q-pred) the predicate "
+                   "are refused with OutOfRange, and groups are written for ascending s exactly when the satellite is present; (Q-cnt) the satellite count on the wire is the number of those groups: popcount of the mask the group loop walks, or a counter incremented exactly where a new mask bit is set (under (bit & mask) == 0); (Q-pred) the predicate "
                    "counted for the group header equals the predicate under which entries are written; (Q-tab) the SSR signal tables are mutually "
                    "inverse and fit 5 bits; (P-push) decoders never push past the capacity; (Q-1230) mask bit <-> signal tables of encode and decode are "
                    "inverse, decode order equals the encoder's sort order, at most 4 entries; quantisers: round-half-away, same resolution both ways, "
